@@ -48,6 +48,9 @@ BODIES = [
     ["G(%s) | 0" % V], ["G | %s" % V], ["G(k=%s) | [%s, %s+1]" % (V, V, V)], ["G(k=[%s, 1]) | 0" % V], ["G(A[%s]) | 0" % V], ["G | 0"],
     ["G(%s) | 0" % V, "H(%s+1) | 1" % V], ["G | %s" % V, "H(2*%s) | (%s, 0)" % (V, V)], ["MeasureX | %s" % V, "G(1, %s, k=%s) | 7" % (V, V)],
 ]
+# every expression form around the loop variable (the loop re-evaluates the same parse-tree nodes once per value)
+BODIES += [["G(sqrt(%s)) | 0" % V], ["G(sin(%s)+1, k=exp(-%s)) | 0" % (V, V)], ["G(%s**2, (%s), -%s) | 0" % (V, V, V)], ["G(2**%s, 1/(%s+1)) | 0" % (V, V)],
+           ["G(A[%s]*2, k=[%s, A[%s]]) | 0" % (V, V, V)], ["G(log(%s+1)*%s) | 0" % (V, V), "H(arctan(%s)) | 1" % V]]
 BODIES_T = [["G(%s) | 0" % V, "H | 1", "K(%s*%s) | 2" % (V, V)], ["G(-%s) | [0, %s+2]" % (V, V)]]
 
 WRONG = [("int", "[0.5]"), ("int", "[1, 2.5]"), ("int", '["a"]'), ("int", "1, 0.5"), ("str", "[1]"), ("str", '["a", 2]'), ("float", '["a"]'),
@@ -56,8 +59,8 @@ WRONG = [("int", "[0.5]"), ("int", "[1, 2.5]"), ("int", '["a"]'), ("int", "1, 0.
 
 def usable(t, body):
     s = " ".join(body)
-    numeric_use = any(x in s for x in ("%s+" % V, "2*%s" % V, "%s*" % V, "-%s" % V))
-    mode_use = ("| %s" % V in s) or ("[%s," % V in s) or ("(%s," % V in s) or ("A[%s]" % V in s) or (", %s+" % V in s)
+    numeric_use = any(x in s for x in ("%s+" % V, "2*%s" % V, "%s*" % V, "-%s" % V, "(%s)" % V, "**%s" % V, "%s**" % V, "(%s+" % V))
+    mode_use = ("A[%s]" % V in s) or ("| %s" % V in s) or ("[%s," % V in s) or ("(%s," % V in s) or ("A[%s]" % V in s) or (", %s+" % V in s)
     if t in ("bool", "str") and (numeric_use or mode_use):
         return False
     if t == "float" and mode_use:
